@@ -402,6 +402,24 @@ try:
             if not isinstance(getattr(Q, name, None), Quantity):
                 badrole.append([k, f"quantities.{name}"])
     out["bad_role_targets"] = badrole
+    # ... and is declared by a generated page under the same qualified name (py:currentmodule + py:data / py:function), which is
+    # what the documentation builder resolves a cross-reference against
+    declared, refs = set(), []
+    for k, v in raw.items():
+        curmod = None
+        for line in v.splitlines():
+            m = re.match(r"\s*\.\. py:currentmodule:: (\S+)", line)
+            if m:
+                curmod = m.group(1)
+                continue
+            m = re.match(r"\s*\.\. py:(?:data|function|attribute|class):: ([\w.]+)", line)
+            if m:
+                declared.add((curmod + "." if curmod else "") + m.group(1))
+            for t in re.findall(r":attr:`~?([\w.]+)`", line):
+                refs.append([k, curmod, t])
+    out["cross_references"] = len(refs)
+    out["declared_targets"] = len(declared)
+    out["undeclared_role_targets"] = [[k, c, t] for k, c, t in refs if not (t in declared or (c and c + "." + t in declared))]
     # determinism
     try:
         gen(d2)
@@ -451,6 +469,26 @@ def expected_pages():
     return pages
 
 
+def clauses_of(res):
+    """(name, holds, detail) for every run-time postcondition of the whole-tree generation"""
+    exp = expected_pages()
+    got = set(res["pages"])
+    return [
+        ("generation-raises-nothing", not res["errors"], "; ".join(res["errors"])[:600]),
+        ("one-page-per-documented-module-and-package", got == exp, f"missing {sorted(exp - got)[:8]} unexpected {sorted(got - exp)[:8]}"),
+        ("no-formula-placeholder-survives", not res["placeholders"], str(res["placeholders"][:8])),
+        ("every-placeholder-replaced-by-the-rendering-of-the-module's-own-member;symbol-table-lists-own-names-and-dimension", not res["unfaithful"], str(res["unfaithful"][:6])),
+        ("every-symbol-and-constant-cross-reference-resolves-to-an-existing-object", not res["unresolved_roles"] and not res["bad_role_targets"]
+         and not res.get("undeclared_role_targets") and res.get("cross_references", 0) > 0,
+         str((res["unresolved_roles"][:5], res["bad_role_targets"][:5], len(res.get("undeclared_role_targets") or []),
+              (res.get("undeclared_role_targets") or [])[:5]))),
+        ("evaluation-flag-is-True-after-each-page", all(f for _, _, f in res["flag_after_page"]) and len(res["flag_after_page"]) >= 700,
+         str([x for x in res["flag_after_page"] if not x[2]][:5]) + f" ({len(res['flag_after_page'])} pages)"),
+        ("evaluation-flag-is-True-after-generation", res.get("flag_at_end") is True and res.get("flag_at_end2") is True, ""),
+        ("generation-is-deterministic(two-runs-byte-identical)", res.get("nondeterministic") == [], str(res.get("nondeterministic"))[:300]),
+    ]
+
+
 def executed_postconditions():
     env = dict(os.environ)
     env["PYTHONPATH"] = str(REPO) + os.pathsep + env.get("PYTHONPATH", "")
@@ -498,24 +536,15 @@ def run(report):
     if res is None:
         report.fault("documentation run did not complete: " + err)
         return
-    exp = expected_pages()
     got = set(res["pages"])
-    clauses = [
-        ("generation-raises-nothing", not res["errors"], "; ".join(res["errors"])[:600]),
-        ("one-page-per-documented-module-and-package", got == exp, f"missing {sorted(exp - got)[:8]} unexpected {sorted(got - exp)[:8]}"),
-        ("no-formula-placeholder-survives", not res["placeholders"], str(res["placeholders"][:8])),
-        ("every-placeholder-replaced-by-the-rendering-of-the-module's-own-member;symbol-table-lists-own-names-and-dimension", not res["unfaithful"], str(res["unfaithful"][:6])),
-        ("every-symbol-and-constant-cross-reference-resolves-to-an-existing-object", not res["unresolved_roles"] and not res["bad_role_targets"],
-         str((res["unresolved_roles"][:5], res["bad_role_targets"][:5]))),
-        ("evaluation-flag-is-True-after-each-page", all(f for _, _, f in res["flag_after_page"]) and len(res["flag_after_page"]) >= 700,
-         str([x for x in res["flag_after_page"] if not x[2]][:5]) + f" ({len(res['flag_after_page'])} pages)"),
-        ("evaluation-flag-is-True-after-generation", res.get("flag_at_end") is True and res.get("flag_at_end2") is True, ""),
-        ("generation-is-deterministic(two-runs-byte-identical)", res.get("nondeterministic") == [], str(res.get("nondeterministic"))[:300]),
-    ]
+    clauses = clauses_of(res)
     for name, ok, detail in clauses:
         report.add(Ob(f"{UNIT}/generate_laws_docs/{name}", PROVED if ok else REFUTED, "exec-whole-tree", 0.0, "" if ok else detail, name,
                       None if ok else {"reproduced": True, "script": "from vf.props import c19\nres, err = c19.executed_postconditions()\n"
-                                       f"assert False, 'C19 run-time postcondition {name} fails: ' + {detail[:300]!r}\n"}))
+                                       "assert res is not None, err\n"
+                                       f"holds, detail = next((ok, d) for n, ok, d in c19.clauses_of(res) if n == {name!r})\n"
+                                       f"print({name!r}, 'holds' if holds else 'fails', detail[:600])\n"
+                                       f"assert holds, 'C19 run-time postcondition {name} fails: ' + detail[:600]\n"}))
     report.extra["pages"] = len(got)
     report.extra["documented_modules_with_patch_precondition"] = nmods
     report.extra["members_checked"] = sum(len(v) for v in res["members"].values())
